@@ -4,6 +4,7 @@ import (
 	"github.com/cnotch/ipchub/av/codec"
 	"github.com/cnotch/ipchub/av/codec/aac"
 	"github.com/cnotch/ipchub/zzverif/symapi"
+	"github.com/cnotch/xlog"
 )
 
 type verifRec struct {
@@ -412,5 +413,39 @@ func VerifTSAacFrames() {
 		symapi.Assert(len(tf.Payload) == n, "payload-handed-through")
 	}
 	symapi.Assert(rec.frames[0].Pts == 90000 && rec.frames[1].Pts == 1023219954*9/100000, "90khz-conversion")
+	symapi.Reach("end")
+}
+
+// VerifTSMuxerLateParamSets (C10 / C09): the SDP may carry no sprop-parameter-sets; SPS and PPS
+// are then learnt in-band by the depacketizer AFTER the TS muxer was created, into the stream's
+// shared metadata. A key frame muxed after that is still preceded by AUD, SPS and PPS.
+func VerifTSMuxerLateParamSets() {
+	symapi.Deterministic(true)
+	rec := &verifFrameRec{}
+	vm := &codec.VideoMeta{Codec: "H264"}
+	am := &codec.AudioMeta{Codec: "AAC", SampleRate: 44100, Channels: 2, Sps: []byte{0x12, 0x10}}
+	if symapi.Bool("parameterSetsInSdp") {
+		vm.Sps, vm.Pps = []byte{0x67, 9, 9}, []byte{0x68, 9}
+	}
+	m, err := NewMuxer(vm, am, rec, xlog.L())
+	symapi.Assert(err == nil && m != nil, "muxer-created")
+	// in-band parameter sets arrive (the depacketizer stores them in the shared metadata)
+	sps, pps := []byte{0x67, 1, 2}, []byte{0x68, 3}
+	vm.Sps, vm.Pps = sps, pps
+	m.WriteFrame(&codec.Frame{MediaType: codec.MediaTypeVideo, Payload: []byte{0x65, 0xaa}, Pts: 40000000, Dts: 40000000})
+	symapi.Settle()
+	symapi.Assert(len(rec.frames) == 1, "key-frame-muxed")
+	h := rec.frames[0].Header
+	want := []byte{0, 0, 0, 1, 9, 0xf0, 0, 0, 0, 1}
+	want = append(want, sps...)
+	want = append(want, 0, 0, 0, 1)
+	want = append(want, pps...)
+	want = append(want, 0, 0, 1)
+	symapi.Assert(len(h) == len(want), "key-frame-preceded-by-aud-and-the-current-sps-pps")
+	for i := 0; i < len(want) && i < len(h); i++ {
+		symapi.Assert(h[i] == want[i], "key-frame-preceded-by-aud-and-the-current-sps-pps")
+	}
+	m.Close()
+	symapi.Settle()
 	symapi.Reach("end")
 }
